@@ -19,21 +19,21 @@ var commonAssumptions = []string{
 var propSpecs = []PropSpec{
 	{
 		ID:          "C01",
-		Rules:       []string{"C01.NIL", "C01.EXH", "C01.TA", "C01.NILMAP", "C01.PIPE", "C01.EXIT", "C01.UNSAFE"},
+		Rules:       []string{"C01.NIL", "C01.EXH", "C01.TA", "C01.NILMAP", "C01.PIPE", "C01.EXIT", "C01.UNSAFE", "C01.NILELEM"},
 		Explanation: "Decides necessary conditions for crash freedom in actionlint's own code: no use of a value on a path where the code itself tested it to be nil (C01.NIL).",
 		NotDecided:  "panics or hangs inside third-party libraries; stack exhaustion; general index/slice bounds; wall-clock bounds",
 		Assumptions: commonAssumptions,
 	},
 	{
 		ID:          "C02",
-		Rules:       []string{"C02.MAP", "C02.SORT", "C02.GO", "C02.FIRST"},
+		Rules:       []string{"C02.MAP", "C02.SORT", "C02.GO", "C02.FIRST", "C02.CHAN"},
 		Explanation: "Decides that no hash-map iteration order can reach message text, the relative order of diagnostics that tie on (file,line,col), outer state, output or returned values (C02.MAP); that each file's diagnostics are stably sorted before being returned and never unstably sorted (C02.SORT); that goroutines of a multi-file run write only their own slot, never the output, and printing happens after eg.Wait() in argument order (C02.GO).",
 		NotDecided:  "that distinct AST nodes really have distinct positions; determinism of third-party libraries",
 		Assumptions: commonAssumptions,
 	},
 	{
 		ID:          "C03",
-		Rules:       []string{"C03.W", "C03.W2", "C03.R", "C03.LOOP"},
+		Rules:       []string{"C03.W", "C03.W2", "C03.R", "C03.LOOP", "C03.DEFER"},
 		Explanation: "Decides the def-use coverage of the workflow AST: every scalar field (String/[]String/Bool/Int/Float/RawYAMLValue) of every node type reachable from Workflow is (W) assigned by a parser method, (W2) by exactly one key of its section switch, and (R) read by a function reachable from RuleExpression's visitor methods and handed to an argument that flows into NewExprLexer; (LOOP) loops handing elements to the scanner have no early exit.",
 		NotDecided:  "that the diagnostic is located at that scalar and is a syntax error (position arithmetic, see C07); value-dependent behaviour of the excluded positions; conditional (path-dependent) hand-over of a parsed value to its field",
 		Assumptions: commonAssumptions,
@@ -47,7 +47,7 @@ var propSpecs = []PropSpec{
 	},
 	{
 		ID:          "C08",
-		Rules:       []string{"C08.KEYW", "C08.KEYR", "C08.FIELD", "C13.CASEARG"},
+		Rules:       []string{"C08.KEYW", "C08.KEYR", "C08.FIELD", "C13.CASEARG", "C08.SELFKEY"},
 		Explanation: "Decides a two-point lattice (lower-case / unknown) on strings: every key stored into (KEYW) or used to look up (KEYR) a map whose keys are case-insensitive names (26 map types: ObjectType.Props, context and function tables, AST maps, action/workflow metadata, untrusted-input tree, job graph) is provably lower-case - a constant equal to its lower-casing, a strings.ToLower result, a field that only ever receives lower-case values (FIELD, greatest fixpoint over all stores), an id produced by a case-insensitive parseMapping call, a range key of another name-keyed map, or a parameter all of whose callers pass lower-case values. CASEARG (shared with C13) fixes which YAML mappings fold case.",
 		NotDecided:  "messages compared modulo letter case; names compared by other means than map lookup (strings.EqualFold sites are not enumerated); keywords true/false/null",
 		Assumptions: commonAssumptions,
@@ -61,14 +61,14 @@ var propSpecs = []PropSpec{
 	},
 	{
 		ID:          "C10",
-		Rules:       []string{"C10.COW", "C10.IMM", "C10.LOCK", "C10.CONF", "C10.CAP", "C10.INST", "C10.PREFIX", "C10.SIB"},
+		Rules:       []string{"C10.COW", "C10.IMM", "C10.LOCK", "C10.CONF", "C10.CAP", "C10.INST", "C10.PREFIX", "C10.SIB", "C10.PERFILE", "C02.CHAN"},
 		Explanation: "Decides the sharing discipline of multi-file runs: (COW) every write through ExprSemanticsChecker.vars is dominated by the copy of the table (and by the deep copy of github for nested writes), the copy functions install fresh maps and every DeepCopy copies its components deeply; (IMM) no mutation site reachable from the per-file check acts on data flowing from a package-level table or the shared Config; (LOCK) every access to the cache maps shared by files happens between Lock and Unlock of its mutex; (CONF) functions that are not thread-safe are unreachable from the goroutines; (CAP) goroutine bodies capture no loop variable; (INST) rules are created per file inside check; (PREFIX) project containment is separator-aware; (SIB) the caches handed to check belong to the project handed to check.",
 		NotDecided:  "absence of all data races (no happens-before model of third-party code); LintFiles == LintFile result equality; agreement of the two derivations of a reusable workflow's interface is decided under C14.SIB",
 		Assumptions: commonAssumptions,
 	},
 	{
 		ID:          "C20",
-		Rules:       []string{"C20.WG", "C20.SEMA", "C20.ONEPROC", "C20.WAIT", "C20.ERR", "C20.MU", "C20.ONCE", "C01.PIPE"},
+		Rules:       []string{"C20.WG", "C20.SEMA", "C20.ONEPROC", "C20.WAIT", "C20.ERR", "C20.MU", "C20.ONCE", "C01.PIPE", "C02.CHAN"},
 		Explanation: "Decides the ordering/typestate clauses of the tool integration: wg.Add before the goroutine and defer wg.Done first (WG); Acquire -> the single call of cmdExecution.run -> Release -> callback by dominance, bound = runtime.NumCPU() (SEMA); one limiter per Lint* invocation, never per file (ONEPROC); every return after the limiter was handed out is dominated by proc.wait(), eg.Wait before it, rules return cmd.wait() (WAIT); a failed tool run is accepted only under ExitError, exit-code and output tests, and no link of the chain run -> callback -> errgroup -> cmd.wait -> Visit -> check -> Lint* drops its error (ERR); diagnostics from tool goroutines are appended under the rule's mutex (MU); each step starts the tool once (ONCE); stdin is not written before the process starts (PIPE).",
 		NotDecided:  "equal-length placeholder substitution; parsing of tool output; which shell a step uses",
 		Assumptions: commonAssumptions,
@@ -110,21 +110,21 @@ var propSpecs = []PropSpec{
 	},
 	{
 		ID:          "C19",
-		Rules:       []string{"C19.EQ", "C19.EXPR", "C02.MAP"},
-		Explanation: "Decides the structural clauses of the matrix checks: (EQ) every Equals method of a raw YAML value with a container field compares the sizes of both sides, so the one-sided iteration is symmetric and the duplicate verdict cannot depend on the order of the values; (EXPR) isYAMLValueSubset first accepts an exclude value written as an expression, each of its negative results is control-dependent on the candidate value being a mapping, a sequence or a string without ${{ }}, the duplicate report is guarded by the row having literal values and nothing is checked when the matrix itself is an expression; (MAP, shared with C02) no map iteration in rule_matrix.go/ast.go reaches a diagnostic or a result in iteration order.",
+		Rules:       []string{"C19.EQ", "C19.EXPR", "C19.CAND", "C02.MAP"},
+		Explanation: "Decides the structural clauses of the matrix checks: (EQ) every Equals method of a raw YAML value with a container field compares the sizes of both sides, so the one-sided iteration is symmetric and the duplicate verdict cannot depend on the order of the values; (EXPR) isYAMLValueSubset first accepts an exclude value written as an expression, each of its negative results is control-dependent on the candidate value being a mapping, a sequence or a string without ${{ }}, the duplicate report is guarded by the row having literal values and nothing is checked when the matrix itself is an expression; (CAND) the candidate table holds the literal row values plus every include value that is not Equals() to a value already present (no other test may leave one out), exclude values are matched with isYAMLValueSubset(candidate, exclude value), and an unknown key is reported iff it has no candidates; (MAP, shared with C02) no map iteration in rule_matrix.go/ast.go reaches a diagnostic or a result in iteration order.",
 		NotDecided:  "the recursive subset/equality semantics themselves (which values are considered equal or contained) and the candidate set computed from include entries",
 		Assumptions: commonAssumptions,
 	},
 	{
 		ID:          "C06",
-		Rules:       []string{"C06.ANY", "C06.ASSIGN", "C06.LOOSE", "C06.OPEN", "C06.CMP"},
+		Rules:       []string{"C06.ANY", "C06.ASSIGN", "C06.LOOSE", "C06.OPEN", "C06.CMP", "C06.IFACECMP"},
 		Explanation: "Monotonicity in the type environment is relational; decided are its local necessary conditions: (ANY) for every chain of type tests on an ExprType value in the semantic checker and the expression rule from which some outcome reaches a diagnostic, either AnyType is one of the tested types and its own outcome is free of diagnostics, or only listed specific types are diagnosed and the fall-through is free of them; (ASSIGN) every Assignable method returns true for an AnyType argument and every Merge has an outcome yielding AnyType; (LOOSE) when the merged type of a matrix include expression is not an object the matrix object is opened.",
 		NotDecided:  "that a more precise type never yields fewer diagnostics downstream (relational over all expressions and environments); function-signature overload resolution",
 		Assumptions: commonAssumptions,
 	},
 	{
 		ID:          "C14",
-		Rules:       []string{"C14.DATA", "C14.REQ", "C14.USE", "C14.OUT", "C14.TYPE", "C08.KEYW", "C08.KEYR"},
+		Rules:       []string{"C14.DATA", "C14.REQ", "C14.USE", "C14.OUT", "C14.TYPE", "C08.KEYW", "C08.KEYR", "C14.WHOLE"},
 		Explanation: "Decides the structural clauses of interface checking: (DATA) the bundled data set is enumerated completely from its literal: every spec is well-formed and unique, every input/output key is the lower-cased declared name, and no spec is both current and outdated; (REQ) every store to the Required field of an action or reusable-workflow input is `required && Default == nil` with a pointer-typed Default, so the three derivations agree; (USE) for each of the three (call-site table, declared table) pairs the undeclared-name report is control-dependent on exactly the failed lookup of the call site's key in the declared table, the missing collection on exactly Required and the failed lookup of the declared key in the call-site table, every collected name is reported, secrets are skipped only under inherit, and bundled actions are checked iff found and not skip_inputs; (OUT) an open outputs object is returned only on paths where one of the enumerated reasons holds and the strict object is filled from the declared outputs; (TYPE) the typed input check is control-dependent on Assignable of the declared type of the same-named input; (KEYW/KEYR, shared with C08) the tables are written and read with lower-cased keys.",
 		NotDecided:  "agreement of the bundled data with the actions' real action.yml files; YAML decoding of metadata files; the type computed for a literal `with:` value",
 		Assumptions: commonAssumptions,
